@@ -190,7 +190,20 @@ def run_ssh_fake(case):
             import warnings
             with warnings.catch_warnings():
                 warnings.simplefilter('ignore')
-                manager.connect_ssh(**kw)
+                if case.get('prior_accept'):
+                    # ONE session object used twice: a first connect() whose callback accepted the unknown key and whose
+                    # authentication failed, then the connect() under test (what it may do is decided by ITS arguments)
+                    kw2 = dict(kw); dp = kw2.pop('device_params')
+                    dh = manager.make_device_handler(dp); dh.add_additional_ssh_connect_params(kw2)
+                    sess = RecSession(dh)
+                    saved = dict(st); st['auths'] = []                      # every request of the first attempt is refused
+                    kw1 = dict(kw2); kw1['unknown_host_cb'] = lambda h, f: True; kw1.pop('hostkey_b64', None)
+                    try: sess.connect(**kw1)
+                    except Exception: pass
+                    st.update(auths=list(saved['auths']), opens=list(saved['opens']), subs=list(saved['subs'])); del ev[:]
+                    sess.connect(**kw2)
+                else:
+                    manager.connect_ssh(**kw)
     except Exception as e:
         exc = e
     finally:
